@@ -33,11 +33,13 @@ def scripts(ctx, deep=False, drop=False, free=False):
     return r, files
 
 
-def run_rpc(ctx, files, limit):
+def run_rpc(ctx, files, limit, limit_rest=None):
+    """limit applies to the first file (0 = all), limit_rest (default: limit) to the others."""
     binp = ctx.go_build("msvc")
     total = {"scripts": 0, "steps": 0, "of": 0, "by_kind": {}}
-    for f in files:
-        p = ctx.run([binp, "-in", f, "-limit", str(limit), "-seed", str(ctx.seed)], timeout=3000)
+    for k, f in enumerate(files):
+        lim = limit if k == 0 or limit_rest is None else limit_rest
+        p = ctx.run([binp, "-in", f, "-limit", str(lim), "-seed", str(ctx.seed)], timeout=3000)
         if p.returncode != 0:
             raise Broken("msvc failed: %s" % p.stderr[-2000:])
         summary = None
